@@ -1,6 +1,7 @@
 #![recursion_limit = "1024"]
 mod cases;
 mod obs;
+mod random;
 mod replay;
 mod sw;
 mod ureplay;
@@ -23,6 +24,7 @@ fn main() {
     world::quiet_panics();
     match args.get(1).map(|s| s.as_str()) {
         Some("replay") => cmd_replay(&args[2..]),
+        Some("random") => random::run(&args[2..]),
         Some("cases") => cases::run(&args[2], &args[3], arg_val(&args, "--result")),
         _ => {
             eprintln!("usage: mh replay <paths.jsonl> [--obs FILE] [--result FILE] [--threads N] [--only ID] [--obs-sample N]");
